@@ -12,6 +12,7 @@ Inductive stepk :=
 | SDump (t : tgt)          (* json.dump(data, f): write the whole new content *)
 | SClose (t : tgt)         (* f.close(): flush *)
 | SMove (a b : tgt)        (* os.rename(a, b) / a.moveTo(b) *)
+| SMoveElseUnlink (a b c : tgt)  (* try: a.moveTo(b)  except: (try: os.unlink(c) except OSError: pass); raise *)
 | SChmod (t : tgt)
 | SUnlink (t : tgt)
 | SUnlinkIfLink (t : tgt)    (* if t.islink(): t.remove()   -- lstat: true for every symlink, dangling or not *)
